@@ -573,8 +573,10 @@ impl<'r, 'c, 's, W: Write> DatumSerializer<'r, 'c, 's, W> {
 				let bytes = n.to_be_bytes();
 				let buf = match decimal.repr {
 					DecimalRepr::Bytes => {
+						// Leading zero bytes of a positive number may only be dropped as long as
+						// the byte that follows keeps the sign bit clear (two's-complement)
 						let mut start = 0;
-						while start < bytes.len() - 1 && bytes[start] == 0 {
+						while start < bytes.len() - 1 && bytes[start] == 0 && bytes[start + 1] & 0x80 == 0 {
 							start += 1;
 						}
 						let buf = &bytes[start..];
